@@ -222,6 +222,31 @@ def hygiene(paths):
     return problems
 
 
+def dep_sources(vfile):
+    """Transitive .v dependencies (within coq/) of one source file, from coqdep."""
+    ensure_makefile()
+    rc, out, _ = sh(['coqdep', '-Q', '.', 'Spowtd'] + [os.path.relpath(p, COQ) for p in all_coq_sources()],
+                    cwd=COQ)
+    deps = {}
+    for line in out.split('\n'):
+        if ':' not in line:
+            continue
+        lhs, rhs = line.split(':', 1)
+        tgt = [t for t in lhs.split() if t.endswith('.vo')]
+        if not tgt:
+            continue
+        src = tgt[0][:-1]
+        deps[src] = [d[:-1] for d in rhs.split() if d.endswith('.vo')]
+    seen, todo = set(), [vfile]
+    while todo:
+        f = todo.pop()
+        if f in seen:
+            continue
+        seen.add(f)
+        todo += deps.get(f, [])
+    return sorted(os.path.join(COQ, f) for f in seen if os.path.exists(os.path.join(COQ, f)))
+
+
 def all_coq_sources():
     out = []
     for root, _, files in os.walk(COQ):
